@@ -1,6 +1,7 @@
 """C04 — owned async iterators are released when a tool finishes, fails or is closed."""
 import s1
 from framework import Issue
+import fam_chain_obj
 
 RULE = (
     "every tool and aggregation x parameter grid x item sequences up to length L x {exhaust, close after 1..len+1 items, "
@@ -98,6 +99,8 @@ def _observe_handle(case):
 
 
 def observe(case):  # noqa: F811
+    if case.get("family") == "chainobj":
+        return fam_chain_obj.observe(case)
     if case.get("family") == "closeall":
         return _observe_closeall(case)
     if case.get("family") == "oddsrc":
@@ -108,6 +111,8 @@ def observe(case):  # noqa: F811
 
 
 def model_request(case):  # noqa: F811
+    if case.get("family") == "chainobj":
+        return fam_chain_obj.model_request(case)
     if case.get("family") == "closeall":
         return {"m": "cleanup", "behs": case["behs"], "inflight": case["inflight"]}
     if case.get("family") in ("handle", "oddsrc"):
@@ -116,6 +121,8 @@ def model_request(case):  # noqa: F811
 
 
 def features(case, obs):  # noqa: F811
+    if case.get("family") == "chainobj":
+        return fam_chain_obj.features(case, obs)
     if case.get("family") == "closeall":
         return ["closeall:n=%d" % len(case["behs"]), "closeall:inflight=%s" % (case["inflight"] is not None)]
     if case.get("family") == "oddsrc":
@@ -126,6 +133,8 @@ def features(case, obs):  # noqa: F811
 
 
 def nontrivial(case, obs):  # noqa: F811
+    if case.get("family") == "chainobj":
+        return fam_chain_obj.nontrivial(case, obs)
     if case.get("family") in ("handle", "oddsrc", "closeall"):
         return True
     return s1.nontrivial(case, obs)
@@ -157,6 +166,8 @@ def cases(tier, rng):
     yield from _handle_cases(tier)
     yield from _odd_cases()
     yield from _closeall_cases()
+    # chain / chain.from_iterable as an object: next / aclose / aclose-while-running / cancel (Machines/ChainObj.lean)
+    yield from fam_chain_obj.cases(rng, 1500 if tier == "quick" else 20000)
     n = 0
     for case in s1.base_cases(tier, rng, s1.KINDS_ASYNC, s1.cons_cuts_and_throws, maxlen=3 if tier == "quick" else 4):
         if case["tool"] == "islice" and (case["params"].get("step", 1) == 3 or (case["params"].get("stop") or 0) > 3):
@@ -189,6 +200,8 @@ def _proj(vis, out):
 
 def judge(case, obs, model):
     issues = []
+    if case.get("family") == "chainobj":
+        return fam_chain_obj.judge(case, obs, model)
     if case.get("family") == "closeall":
         return _judge_closeall(case, obs, model)
     if case.get("family") == "oddsrc":
